@@ -51,13 +51,13 @@ func (l *Layout) Find(kind string) []Span {
 
 // Chunk kinds, numbered like the seven kinds of the format.
 const (
-	CkEnd = iota
-	CkRawD  // uncompressed, dictionary reset (control 1)
-	CkRaw   // uncompressed (control 2)
-	CkL     // LZMA, nothing reset
-	CkLR    // LZMA, state reset
-	CkLRN   // LZMA, state reset, new properties
-	CkLRND  // LZMA, state reset, new properties, dictionary reset
+	CkEnd  = iota
+	CkRawD // uncompressed, dictionary reset (control 1)
+	CkRaw  // uncompressed (control 2)
+	CkL    // LZMA, nothing reset
+	CkLR   // LZMA, state reset
+	CkLRN  // LZMA, state reset, new properties
+	CkLRND // LZMA, state reset, new properties, dictionary reset
 )
 
 // CkNames names the chunk kinds.
@@ -312,9 +312,9 @@ func EncodeLZMA2(specs []ChunkSpec, dictSize uint32) (stream, plain []byte, err 
 // operations, so that the generator can choose legal distances. It applies
 // operations without encoding them.
 type LZMA2Sim struct {
-	w     window
-	Rep   [4]uint32
-	State int
+	w         window
+	Rep       [4]uint32
+	State     int
 	HaveModel bool
 }
 
